@@ -11,8 +11,9 @@ namespace xv
         bool all = false; // every bit pattern of `bits` bits; value = index
         int bits = 0;
         std::vector<uint64_t> v;
-        uint64_t size() const { return all ? (1ull << bits) : v.size(); }
-        uint64_t at(uint64_t i) const { return all ? i : v[i]; }
+        uint64_t step = 1; // for `all`: every step-th pattern only (a stated strided sub-alphabet)
+        uint64_t size() const { return all ? ((1ull << bits) + step - 1) / step : v.size(); }
+        uint64_t at(uint64_t i) const { return all ? i * step : v[i]; }
         static Alpha ALL(int bits)
         {
             Alpha a;
@@ -41,8 +42,8 @@ namespace xv
             if (a.all)
             {
                 a.all = false;
-                for (uint64_t i = 0; i < (1ull << bits); ++i)
-                    a.v.push_back(i);
+                for (uint64_t i = 0; i < size(); ++i)
+                    a.v.push_back(at(i));
             }
             if (a.v.size() % 2 == 0)
                 a.v.push_back(a.v[0]);
